@@ -470,6 +470,17 @@ func (w *World) isClamped(v ssa.Value) (bool, string) {
 				}
 				continue
 			}
+			// an ordered comparison of f that is known to be TRUE excludes NaN (every comparison with NaN is false)
+			switch op {
+			case token.LSS, token.LEQ, token.GTR, token.GEQ, token.EQL:
+				if a.Pol {
+					nan = true
+				}
+			case token.NEQ:
+				if !a.Pol {
+					nan = true
+				}
+			}
 			if k, isK := constFloat(y); isK && k == 0 {
 				if (op == token.LSS && !a.Pol) || (op == token.GEQ && a.Pol) {
 					lo = true
@@ -533,7 +544,20 @@ func (w *World) translateShape(P string, f *Facts) {
 						}
 					}
 				}
-				w.check(P, "R07.4", "translate: first occurrence wins", x.Pos(), first, fmt.Sprintf("the map update is guarded by a failed lookup of the same character: %v (otherwise a later duplicate in the second argument overrides the first)", first))
+				// or: the second argument is walked from its end, so the first occurrence is written last
+				backwards := false
+				if !first {
+					backSlice(x.Key, func(v ssa.Value) bool {
+						if ia, ok := v.(*ssa.IndexAddr); ok && descendingCounter(ia.Index) {
+							backwards = true
+						}
+						if ix, ok := v.(*ssa.Index); ok && descendingCounter(ix.Index) {
+							backwards = true
+						}
+						return true
+					})
+				}
+				w.check(P, "R07.4", "translate: first occurrence wins", x.Pos(), first || backwards, fmt.Sprintf("the map update is guarded by a failed lookup of the same character: %v; or the second argument is walked backwards so that the first occurrence is written last: %v (otherwise a later duplicate in the second argument overrides the first)", first, backwards))
 			case *ssa.IndexAddr:
 				if !isRuneSlice(x.X.Type()) {
 					return
@@ -678,13 +702,21 @@ func (w *World) stringCallees(P string, f *Facts) {
 		impl := b.Fns[-1]
 		ok := false
 		detail := "no call of " + callee
-		var idxCall *ssa.Call
+		var idxCall, cutCall *ssa.Call
 		allInstrs(impl, func(in ssa.Instruction) {
 			c, isCall := in.(*ssa.Call)
 			if !isCall || staticCallee(c) == nil || !strings.HasPrefix(funcFullName(staticCallee(c)), "strings.") {
 				return
 			}
 			n := funcFullName(staticCallee(c))
+			if n == "strings.Cut" && callee == "strings.Index" {
+				// the library's own "split at the first match": same search, the parts come back ready-made
+				a0, a1 := argIdx(impl, c.Call.Args[0]), argIdx(impl, c.Call.Args[1])
+				ok = a0 == 0 && a1 == 1
+				detail = fmt.Sprintf("strings.Cut(args[%d].String(), args[%d].String())", a0, a1)
+				cutCall = c
+				return
+			}
 			if n != callee {
 				detail = "calls " + n + " instead of " + callee
 				return
@@ -695,6 +727,37 @@ func (w *World) stringCallees(P string, f *Facts) {
 			idxCall = c
 		})
 		w.check(P, "R07.6", "builtin "+bn+" callee", impl.Pos(), ok, detail)
+		if callee == "strings.Index" && cutCall != nil {
+			// the part returned is the one before (substring-before) / after (substring-after) the match, and only
+			// when a match was found
+			wantPart := 0
+			if bn == "substring-after" {
+				wantPart = 1
+			}
+			okPart, okGuard := false, false
+			allInstrs(impl, func(in ssa.Instruction) {
+				ret, isRet := in.(*ssa.Return)
+				if !isRet || len(ret.Results) != 2 || !isNilConst(ret.Results[1]) {
+					return
+				}
+				ex, isEx := stripConvAll(ret.Results[0]).(*ssa.Extract)
+				if !isEx || ex.Tuple != ssa.Value(cutCall) {
+					return
+				}
+				okPart = ex.Index == wantPart
+				for _, a := range guardAtoms(ret.Block()) {
+					if g, ok := a.V.(*ssa.Extract); ok && g.Tuple == ssa.Value(cutCall) && g.Index == 2 && a.Pol {
+						okGuard = true
+					}
+				}
+			})
+			// without a match Cut returns (s, "", false): the "after" part is already the empty string then, the
+			// "before" part is the whole string and must not be returned
+			if wantPart == 1 {
+				okGuard = true
+			}
+			w.check(P, "R07.6", "builtin "+bn+" slice", impl.Pos(), okPart && okGuard, fmt.Sprintf("returns the part of arg0 %s the first match: %v; only when a match was found (needed for the part before): %v", map[int]string{0: "before", 1: "after"}[wantPart], okPart, okGuard))
+		}
 		if callee == "strings.Index" && idxCall != nil {
 			// slice shape and negative-index guard
 			okSlice, okGuard := false, false
